@@ -62,6 +62,8 @@ pub enum E {
 pub enum From {
     Table(usize),
     Join(&'static str, Box<From>, Box<From>, Option<E>),
+    /// derived table `(SELECT items FROM inner [WHERE w]) AS r`; its columns are c0, c1, …
+    Derived(Box<From>, Option<E>, Vec<E>),
 }
 
 #[derive(Clone, Debug)]
@@ -269,6 +271,15 @@ fn show_from(f: &From, out: &mut Vec<String>) {
                     out.push("on".into());
                     show_expr(e, out)
                 }
+            }
+        }
+        From::Derived(inner, w, items) => {
+            out.push("d".into());
+            show_from(inner, out);
+            show_where(w, out);
+            out.push(format!("p{}", items.len()));
+            for e in items {
+                show_expr(e, out);
             }
         }
     }
@@ -485,6 +496,15 @@ fn p_from(t: &mut Toks) -> Option<From> {
             _ => return None,
         };
         Some(From::Join(k, Box::new(l), Box::new(r), on))
+    } else if w == "d" {
+        let inner = p_from(t)?;
+        let wh = p_where(t)?;
+        let n = num_after("p", t.next()?)?;
+        let mut items = Vec::new();
+        for _ in 0..n {
+            items.push(p_expr(t)?);
+        }
+        Some(From::Derived(Box::new(inner), wh, items))
     } else {
         Some(From::Table(num_after("t", w)?))
     }
@@ -715,8 +735,11 @@ fn sql_ty(t: Ty) -> &'static str {
     }
 }
 
-/// leaves of a FROM tree, left to right: (table, first column index in the joined row)
-fn leaves(f: &From, db: &[Table], out: &mut Vec<(usize, usize)>, width: &mut usize) {
+/// the table of a leaf that is a derived table (no such table: lookups in the database find nothing)
+pub const DERIVED_LEAF: usize = usize::MAX;
+
+/// leaves of a FROM tree, left to right: (table, first column index in the joined row); a derived table is one leaf
+pub fn leaves(f: &From, db: &[Table], out: &mut Vec<(usize, usize)>, width: &mut usize) {
     match f {
         From::Table(t) => {
             out.push((*t, *width));
@@ -726,28 +749,129 @@ fn leaves(f: &From, db: &[Table], out: &mut Vec<(usize, usize)>, width: &mut usi
             leaves(l, db, out, width);
             leaves(r, db, out, width);
         }
+        From::Derived(_, _, items) => {
+            out.push((DERIVED_LEAF, *width));
+            *width += items.len();
+        }
     }
 }
 
-fn from_tys(f: &From, db: &[Table]) -> Vec<Ty> {
+fn wider(a: Ty, b: Ty) -> Ty {
+    match (a, b) {
+        (Ty::BigInt, _) | (_, Ty::BigInt) => Ty::BigInt,
+        (Ty::Int, _) | (_, Ty::Int) => Ty::Int,
+        _ => a,
+    }
+}
+
+/// static type of an expression as the reference infers it (`inferTyO`); `None` for an untyped NULL
+pub fn expr_ty(e: &E, tys: &[Ty]) -> Option<Ty> {
+    match e {
+        E::Lit(Val::Int(v)) => Some(if (I32_MIN..=I32_MAX).contains(v) { Ty::Int } else { Ty::BigInt }),
+        E::Lit(Val::Text(_)) => Some(Ty::Text),
+        E::Lit(Val::Bool(_)) => Some(Ty::Bool),
+        E::Lit(_) => None,
+        E::Col(i) => Some(tys.get(*i).copied().unwrap_or(Ty::BigInt)),
+        E::Neg(a) | E::Pos(a) => expr_ty(a, tys),
+        E::Arith(_, a, b) => match (expr_ty(a, tys), expr_ty(b, tys)) {
+            (None, None) => None,
+            (ta, tb) => Some(wider(ta.unwrap_or(Ty::Bool), tb.unwrap_or(Ty::Bool))),
+        },
+        E::Case(_, arms, els) => {
+            let mut t: Option<Ty> = None;
+            for r in arms.iter().map(|(_, r)| r).chain(els.iter().map(|b| &**b)) {
+                t = match (t, expr_ty(r, tys)) {
+                    (None, b) => b,
+                    (a, None) => a,
+                    (Some(a), Some(b)) if a != b && matches!(a, Ty::Int | Ty::BigInt) && matches!(b, Ty::Int | Ty::BigInt) => {
+                        Some(Ty::BigInt)
+                    }
+                    (a, _) => a,
+                };
+            }
+            t
+        }
+        _ => Some(Ty::Bool),
+    }
+}
+
+pub fn from_tys(f: &From, db: &[Table]) -> Vec<Ty> {
+    match f {
+        From::Table(t) => db.get(*t).map(|t| t.tys.clone()).unwrap_or_default(),
+        From::Join(_, l, r, _) => {
+            let mut tys = from_tys(l, db);
+            tys.extend(from_tys(r, db));
+            tys
+        }
+        From::Derived(inner, _, items) => {
+            let tys = from_tys(inner, db);
+            items.iter().map(|e| expr_ty(e, &tys).unwrap_or(Ty::Bool)).collect()
+        }
+    }
+}
+
+/// does the FROM tree contain a join (at any depth)?
+pub fn has_join(f: &From) -> bool {
+    match f {
+        From::Table(_) => false,
+        From::Join(..) => true,
+        From::Derived(inner, ..) => has_join(inner),
+    }
+}
+
+/// does a derived table of the FROM tree have a WHERE of its own?
+pub fn has_derived_where(f: &From) -> bool {
+    match f {
+        From::Table(_) => false,
+        From::Join(_, l, r, _) => has_derived_where(l) || has_derived_where(r),
+        From::Derived(inner, w, _) => w.is_some() || has_derived_where(inner),
+    }
+}
+
+/// column naming of a FROM tree: column i of the joined row is `r<k>.c<j>` (k-th leaf, its j-th column)
+pub fn col_namer(f: &From, db: &[Table]) -> impl Fn(usize) -> String + 'static {
     let mut ls = Vec::new();
     let mut w = 0;
     leaves(f, db, &mut ls, &mut w);
-    ls.iter().flat_map(|(t, _)| db.get(*t).map(|t| t.tys.clone()).unwrap_or_default()).collect()
+    move |i: usize| -> String {
+        for (k, (_, start)) in ls.iter().enumerate().rev() {
+            if i >= *start {
+                return format!("r{}.c{}", k, i - start);
+            }
+        }
+        format!("r0.c{}", i)
+    }
 }
 
-fn sql_from(f: &From, next: &mut usize, col: &dyn Fn(usize) -> String) -> String {
+/// `(SELECT e0 AS c0, … FROM inner [WHERE w]) AS r<k>`; the inner query has its own scope (aliases r0, r1, … again)
+pub fn sql_derived(inner: &From, w: &Option<E>, items: &[E], k: usize, db: &[Table]) -> String {
+    let col = col_namer(inner, db);
+    let mut next = 0;
+    let list: Vec<String> = items.iter().enumerate().map(|(i, e)| format!("{} AS c{}", sql_expr(e, 1, &col), i)).collect();
+    let mut s = format!("(SELECT {} FROM {}", list.join(", "), sql_from(inner, db, &mut next, &col));
+    if let Some(w) = w {
+        s += &format!(" WHERE {}", sql_expr(w, 1, &col));
+    }
+    s + &format!(") AS r{}", k)
+}
+
+fn sql_from(f: &From, db: &[Table], next: &mut usize, col: &dyn Fn(usize) -> String) -> String {
     match f {
         From::Table(t) => {
             let s = format!("t{} AS r{}", t, *next);
             *next += 1;
             s
         }
+        From::Derived(inner, w, items) => {
+            let s = sql_derived(inner, w, items, *next, db);
+            *next += 1;
+            s
+        }
         From::Join(k, l, r, on) => {
-            let ls = sql_from(l, next, col);
+            let ls = sql_from(l, db, next, col);
             // a join on the right-hand side would need parentheses the grammar does not have: the generator only
             // builds left-deep trees; a right-nested tree is printed flat (and then means something else)
-            let rs = sql_from(r, next, col);
+            let rs = sql_from(r, db, next, col);
             let kw = match *k {
                 "inner" => "INNER JOIN",
                 "left" => "LEFT JOIN",
@@ -766,18 +890,7 @@ fn sql_from(f: &From, next: &mut usize, col: &dyn Fn(usize) -> String) -> String
 pub fn sql_stmt(s: &Stmt, db: &[Table]) -> String {
     match s {
         Stmt::Select(q) => {
-            let mut ls = Vec::new();
-            let mut w = 0;
-            leaves(&q.from, db, &mut ls, &mut w);
-            let ls2 = ls.clone();
-            let col = move |i: usize| -> String {
-                for (k, (_, start)) in ls2.iter().enumerate().rev() {
-                    if i >= *start {
-                        return format!("r{}.c{}", k, i - start);
-                    }
-                }
-                format!("r0.c{}", i)
-            };
+            let col = col_namer(&q.from, db);
             let mut out_exprs: Vec<String> = Vec::new();
             let is_agg = !q.aggs.is_empty() || !q.group_by.is_empty();
             // the aggregate row: group keys (in parentheses unless a bare column), then the aggregate calls
@@ -822,7 +935,7 @@ pub fn sql_stmt(s: &Stmt, db: &[Table]) -> String {
             } else {
                 match &q.items {
                     None => {
-                        out_exprs = (0..w).map(&col).collect();
+                        out_exprs = (0..from_tys(&q.from, db).len()).map(&col).collect();
                         "*".to_string()
                     }
                     Some(es) => {
@@ -836,7 +949,7 @@ pub fn sql_stmt(s: &Stmt, db: &[Table]) -> String {
                 "SELECT {}{} FROM {}",
                 if q.distinct { "DISTINCT " } else { "" },
                 items,
-                sql_from(&q.from, &mut next, &col)
+                sql_from(&q.from, db, &mut next, &col)
             );
             if let Some(wh) = &q.where_ {
                 sql += &format!(" WHERE {}", sql_expr(wh, 1, &col));
@@ -1497,7 +1610,61 @@ impl<'a> Gen<'a> {
     }
 
     /// left-deep join tree over 1–3 table occurrences
+    /// a derived table over `inner`: some of its columns in some order, now and then a computed column, half of the
+    /// time with a WHERE of its own.  Everything inside is generated in safe mode (it cannot raise an error), and every
+    /// output column has a type (an untyped NULL column is left to the engine's discretion).
+    fn derived_over(&mut self, inner: From, db: &[Table], p: Profile) -> From {
+        let tys = from_tys(&inner, db);
+        if tys.is_empty() {
+            return inner;
+        }
+        self.tag("from.derived");
+        if has_join(&inner) {
+            self.tag("from.derived.over-join");
+        }
+        if matches!(inner, From::Derived(..)) {
+            self.tag("from.derived.nested");
+        }
+        let saved = self.safe_arith;
+        self.safe_arith = true;
+        let w = if self.rng.chance(1, 2) {
+            self.tag("from.derived.where");
+            Some(self.bool_expr(&tys, p, 1))
+        } else {
+            None
+        };
+        let n = 1 + self.rng.below(tys.len() as u64 + 1) as usize;
+        let mut items = Vec::new();
+        for _ in 0..n {
+            let e = if self.rng.chance(3, 4) {
+                E::Col(self.rng.below(tys.len() as u64) as usize)
+            } else {
+                self.tag("from.derived.expr");
+                match self.rng.below(3) {
+                    0 => self.int_expr(&tys, p, 1),
+                    1 => self.bool_expr(&tys, p, 1),
+                    _ => self.text_expr(&tys, p),
+                }
+            };
+            items.push(if expr_ty(&e, &tys).is_none() { E::Col(0) } else { e });
+        }
+        self.safe_arith = saved;
+        From::Derived(Box::new(inner), w, items)
+    }
+
+    /// one operand of FROM: a table, now and then wrapped in a derived table
+    fn leaf(&mut self, db: &[Table], p: Profile) -> From {
+        let t = From::Table(self.rng.below(db.len() as u64) as usize);
+        if self.rng.chance(1, 6) { self.derived_over(t, db, p) } else { t }
+    }
+
     fn from(&mut self, db: &[Table], p: Profile, max_tables: usize) -> From {
+        let f = self.from_tree(db, p, max_tables);
+        // the whole FROM as a derived table (over a join, or a derived table of a derived table)
+        if self.rng.chance(1, 12) { self.derived_over(f, db, p) } else { f }
+    }
+
+    fn from_tree(&mut self, db: &[Table], p: Profile, max_tables: usize) -> From {
         let n = 1 + self.rng.below(max_tables as u64) as usize;
         self.safe_arith = true;
         let mut f = From::Table(self.rng.below(db.len() as u64) as usize);
@@ -1540,12 +1707,15 @@ impl<'a> Gen<'a> {
                 return f;
             }
         }
+        if self.rng.chance(1, 6) {
+            f = self.derived_over(f, db, p);
+        }
         for _ in 1..n {
-            let t = self.rng.below(db.len() as u64) as usize;
+            let right = self.leaf(db, p);
             let kind = *self.rng.pick(&["inner", "inner", "left", "right", "full", "cross"]);
             self.tag(&format!("join.{}", kind));
             let ltys = from_tys(&f, db);
-            let joined = From::Join(kind, Box::new(f.clone()), Box::new(From::Table(t)), None);
+            let joined = From::Join(kind, Box::new(f.clone()), Box::new(right.clone()), None);
             let tys = from_tys(&joined, db);
             let on = if kind == "cross" {
                 None
@@ -1589,7 +1759,7 @@ impl<'a> Gen<'a> {
                     self.tag("join.on.oneside");
                 }
             }
-            f = From::Join(kind, Box::new(f), Box::new(From::Table(t)), on);
+            f = From::Join(kind, Box::new(f), Box::new(right), on);
         }
         f
     }
@@ -1597,7 +1767,7 @@ impl<'a> Gen<'a> {
     fn select(&mut self, db: &[Table], p: Profile) -> Select {
         let max_tables = if self.rng.chance(1, 3) { 3 } else { 1 };
         let from = self.from(db, p, max_tables);
-        let multi = matches!(from, From::Join(..));
+        let multi = has_join(&from);
         self.tag(if multi { "multi-table" } else { "single-table" });
         // shape of the rest of the statement, decided first because it determines which clause may fail
         let kind = self.rng.below(10); // < 3: aggregate query
@@ -1605,7 +1775,8 @@ impl<'a> Gen<'a> {
         let limit_kind = self.rng.below(4);
         let has_limit = (3..6).contains(&order_kind) && limit_kind < 3;
         // the one clause that may raise an arithmetic error: 0 = none, 1 = WHERE, 2 = output (items / keys), 3 = aggregate arguments
-        let risky = if multi {
+        // (a WHERE inside a derived table is merged with the outer one: a row it rejects may still meet the outer predicate)
+        let risky = if multi || has_derived_where(&from) {
             0
         } else if has_limit {
             self.rng.below(2)
@@ -1617,7 +1788,7 @@ impl<'a> Gen<'a> {
         self.safe_arith = risky != 1;
         // a cross-category comparison as the whole WHERE of a single-table statement whose table has a row on which
         // both sides are non-NULL: the engine meets it for certain (it checks when it evaluates)
-        let cross = !multi && self.pristine && self.rng.chance(1, 40);
+        let cross = matches!(from, From::Table(_)) && self.pristine && self.rng.chance(1, 40);
         let where_ = if cross {
             let mut w = self.cross_type_cmp(&tys);
             let t = match &from { From::Table(t) => *t, _ => 0 };
@@ -1696,7 +1867,8 @@ impl<'a> Gen<'a> {
                         } else {
                             // sums of boundary values are kept to single columns of INT type (no 64-bit overflow)
                             let cols = self.cols_of(&tys, &[Ty::Int]);
-                            Some(E::Col(*self.rng.pick(&cols)))
+                            // (a derived table need not have an INT column)
+                            Some(if cols.is_empty() { E::Lit(Val::Int(1)) } else { E::Col(*self.rng.pick(&cols)) })
                         }
                     }
                     _ => Some(match self.rng.below(3) {
